@@ -1161,8 +1161,18 @@ class FortranFile:
     def strip_comment(self, line: str) -> str:
         """Strip comment from line"""
         if self.fixed:
-            if FRegex.FIXED_COMMENT.match(line) and not FRegex.FIXED_OPENMP.match(line):
+            if FRegex.FIXED_OPENMP.match(line):
+                return line
+            if FRegex.FIXED_COMMENT.match(line):
                 return ""
+            # A trailing comment: `!` outside a character literal and not in
+            # column 6, where it is a continuation mark
+            stripped = strip_strings(line, maintain_len=True)
+            comm_ind = stripped.find("!")
+            if comm_ind == 5:
+                comm_ind = stripped.find("!", 6)
+            if comm_ind >= 0:
+                line = line[:comm_ind]
         else:
             if FRegex.FREE_OPENMP.match(line) is None:
                 # A `!` inside a character literal does not start a comment
